@@ -51,6 +51,7 @@ ASSUMPTIONS = [
 MINIMUMS = {"monitor:state-restored": 100000, "monitor:scope-restored": 5000, "monitor:taskgroup-restored": 5000, "monitor:exception-identity": 500,
             "probes_after_fault": 3000, "faults:disposable-enter": 100, "faults:disposable-exit": 100, "faults:child": 100, "faults:body-exception": 300, "injections_delivered": 500}
 JOBS = {"quick": 4, "thorough": 16}
+OPTIMIZED_SHARDS = {"quick": 2, "thorough": 16}  # the same cases once more under `python -O`
 LEVEL_TEXT = (
     "For generated programs (<= 6 blocks) every block is chosen in turn and left in every applicable way - 12 body outcomes (return, Exception, BaseException, self-raised CancelledError, external cancellation, 6 builtin exception classes, an exception group), failing disposable subsets, failing child subsets - under "
     "all release orders of the involved gates (capped DFS); additionally a cancellation is injected at every suspension point of programs with suspending disposables and children. "
